@@ -259,7 +259,13 @@ def failures(prop, mm, md, fmt, opts, rt=None):
         return out
     for clause, path, fname, v0, v1 in G.diff_dumps(rt.d0, rt.d1):
         f = feature_by_name(mm, fname) if fname else None
-        sig = dict(base, clause=clause, feature=G.feature_shape(f), value=value_class_of_diff(clause, f, v0, v1))
+        vc = value_class_of_diff(clause, f, v0, v1)
+        if clause == 'attribute' and f is not None and not f['many'] and vc not in ('None', 'cross-type equality'):
+            if v0 == G.type_default(f['type'], mm):
+                vc = 'type-default'
+            elif G.declared_default(f) is not None and v0 == G.declared_default(f):
+                vc = 'declared-default'
+        sig = dict(base, clause=clause, feature=G.feature_shape(f), value=vc)
         out.append((sig, f'{clause} differs at {path}{"." + fname if fname else ""}: saved {v0!r} loaded {v1!r}'))
     for clause, fname, text in rt.wf:
         f = feature_by_name(mm, fname) if fname else None
